@@ -118,7 +118,7 @@ CHECKS = {
         "text": "Bounded model checking of the verbatim circuit_breaker.rs with atomics and the clock stubbed so that schedules become data: (a) single thread, every sequence "
                 "of 5 (quick) / 7 (thorough) operations with symbolic configuration and clock steps: no panic, Closed->Open only by a failure with >= threshold CONSECUTIVE "
                 "failures, admitted requests per half-open episode <= half_open_max_calls; (b) 2..4 main-thread operations where at EVERY atomic access / clock read up to 1 "
-                "(quick) / 2 (thorough) complete operations of other threads run (properly nested interleavings): no panic/overflow, opens only after threshold failures, probe bound.",
+                "complete operation of another thread runs (properly nested interleavings, depth 1; depth 2 did not fit in memory): no panic/overflow, opens only after threshold failures, probe bound.",
         "note": TB + "sequentially consistent atomics; only properly nested (LIFO) context switches - other interleavings are outside the claim; clock arbitrary but non-decreasing.",
         "technique": "Kani/CBMC bounded model checking of the verbatim breaker; interleavings encoded as nondeterministic nested operations at every atomic access",
     },
